@@ -674,7 +674,7 @@ func TestPgWirePrograms(t *testing.T) {
 		vk.AddLabel("TestPgWirePrograms/NOT-RUN-no-loopback-sockets", 1)
 		t.Skip(pgNotRun)
 	}
-	vk.Check(t, 160, 4000, func(rt *rapid.T, c *vk.Case) {
+	vk.Check(t, 160, 3000, func(rt *rapid.T, c *vk.Case) {
 		p, err := pgFixture()
 		if err != nil {
 			rt.Fatalf("pg fixture: %v", err)
